@@ -7,24 +7,86 @@ VERIF = os.path.dirname(os.path.dirname(os.path.abspath(__file__)))
 sys.path.insert(0, VERIF)
 
 CLAIMS = {
-    "C01": dict(
-        category="model_checking",
+    "C01": dict(category="model_checking", design="4/C01",
         technique="stateless deviation-bounded exploration of clock/RNG decisions of the real auto_search + explicit-state search over searcher states (all slicings); oracle: plain enumeration",
-        text="Every configuration of a stated lattice (start classes x statistics x packs x 4 rule databases x options) is run through the real auto_search under an explorer-owned clock and RNG: all schedules within the deviation bound from both default slicings, and all slicings by explicit-state search on the base configurations. Every distinct returned specification is compared with plain enumeration for all sizes <= N and all parameter tuples. Exhaustive within the bounds; says nothing beyond them.",
-        note="trusted: W-domain brute force and strategies (domain gate), virtual clock site classification (conformance run in C17), bounds in evidence",
-        design="4/C01"),
-    "C02": dict(
-        category="model_checking",
+        text="Every configuration of a stated lattice (W start classes x statistics x packs x 4 rule databases x options, and G grammars) is run through the real auto_search under an explorer-owned clock and RNG: all schedules within the deviation bound from both default slicings, and all slicings by explicit-state search on the base configurations. Every distinct returned specification is compared with plain enumeration for all sizes <= N and all parameter tuples. Exhaustive within the bounds; says nothing beyond them.",
+        note="trusted: domain brute force and strategies (domain gate in C04/C09), virtual clock site classification (conformance run in C17), bounds in evidence"),
+    "C02": dict(category="model_checking", design="4/C02",
         technique="same exhaustive executions as C01; oracles: closure/reachability, re-application of strategies, independent least-fixed-point productivity",
         text="Same executions as C01. For every distinct returned specification: closure and reachability, no two rules for one class in the raw rule list, every rule re-derived by a fresh decomposition_function call of a pack strategy (through reverse/equivalence/path wrappers), productivity by an independent least-fixed-point computation on (parent, children, shifts).",
-        note="trusted: domain emptiness predicate, LFP oracle (self-tested in C03)",
-        design="4/C02"),
-    "C03": dict(
-        category="model_checking",
+        note="trusted: domain emptiness predicate, LFP oracle (self-tested in C03)"),
+    "C03": dict(category="model_checking", design="4/C03",
         technique="explicit-state search over insertion histories of the real TableMethod (all sequences with repetition to a depth, all permutations of fixed universes); oracle: independent least fixed point after every insertion",
         text="All sequences with repetition of rule keys from small alphabets up to a stated depth and all permutations of the test-suite universes are replayed on fresh TableMethod objects; after every insertion function/is_pumping/pumping_subuniverse are compared with an independent least-fixed-point computation and with the previous step (monotone).",
-        note="trusted: mc/oracles.py lfp_terms (gap lemma in DESIGN 3.3; self-tested against the repository's hand-typed expectations and uncapped Kleene iteration)",
-        design="4/C03"),
+        note="trusted: mc/oracles.py lfp_terms (gap lemma in DESIGN 3.3; self-tested against the repository's hand-typed expectations and uncapped Kleene iteration)"),
+    "C04": dict(category="model_checking", design="4/C04",
+        technique="deviation-bounded exploration of real searches with an observer on every ruledb.add; oracle: re-application of the strategy, exact emptiness, label bijection",
+        text="Every call of ruledb.add in every explored execution (packs with strategy/rule factories incl. foreign parents, symmetries, inferral chains, verification strategies; 3-4 rule databases) is checked: parent label carries the rule's class, child labels are the children's labels, the strategy belongs to the pack and reproduces the children, the stored key holds exactly the labels of the truly non-empty children, forest empty rules, labels<->classes bijection, cached emptiness.",
+        note="trusted: domain gate (set arithmetic) run on every rule met; exact emptiness predicate of the W-domain"),
+    "C05": dict(category="model_checking", design="4/C05",
+        technique="exhaustive enumeration of small rule dictionaries through every finder under all RNG decisions; explicit-state search over insertion sequences into real RuleDB objects; observed rule databases of real searches; oracles: independent GFP/LFP on SCC-collapsed rules, tree validity, brute-force minimum",
+        text="(i) all rule dictionaries over 3 (4) labels through prune/iterative_prune and all finders under all (deviation-bounded for the larger ones) RNG decisions, bounded DFS generator for every bound; (ii) all sequences of <= L insertions of multi-child/two-way/one-way/verification rules into real RuleDB and RuleDBForgetStrategy, every start label, recursive and iterative, queried after every insertion and at the end, including the trees handed to the extractor and the smallest-tree search; (iii) rule databases of real searches.",
+        note="trusted: mc/oracles.py gfp_prune, iterative_lfp, scc_partition, all_assignments (self-tested); stub searcher for (ii)"),
+    "C06": dict(category="model_checking", design="4/C06",
+        technique="explicit-state breadth-first search over histories of the real EquivalenceDB, deduplicated on complete internal state x reference model; oracle: plain reachability (SCC)",
+        text="All histories of two-way edge / one-way edge / mark-verified / connect-cycles over 4 labels to depth 5 (thorough: depth 7, and 5 labels to depth 5); in every state with no edge added since the last cycle detection equivalent/is_verified/find_path/__getitem__ are compared with mutual reachability for all ordered pairs.",
+        note="trusted: scc_partition; states are copied attribute by attribute (attribute set asserted)"),
+    "C07": dict(category="exploration", design="4/C07",
+        technique="bounded-exhaustive enumeration of specifications x sizes x parameters and of rule forms x objects; oracle: plain enumeration of words / parse trees",
+        text="Every specification of the corpus (W and G, every rule database): generated objects == plain enumeration, no repetition, number == the specification's own count, for all sizes <= N and parameter tuples. Every rule form with object maps (plain, equivalence, reverse-of-equivalence, equivalence paths): backward(forward(o)) == o for every parent object, parts in the children, forward(backward(parts)) == parts for every admissible tuple.",
+        note="exhaustive over the stated finite families only"),
+    "C08": dict(category="model_checking", design="4/C08",
+        technique="exhaustive enumeration of the decisions of the random number generator (every draw value, every stub pick, every final choice) with exact Fraction arithmetic; end-to-end decision trees for small sizes",
+        text="Per rule form with a sampler and per (size, parameters): the exact distribution over parent objects is computed from every outcome of the generator and must be uniform; descending into an empty composition is a violation. End to end: the complete decision tree of spec.random_sample_object_of_size for sizes <= 3 (4) on corpus specifications; refusal exactly when no object exists.",
+        note="trusted: stub sub-samplers uniform on the true child objects (induction hypothesis); factorisation by request pattern validated against the unreduced enumeration for counts <= 4"),
+    "C09": dict(category="exploration", design="4/C09",
+        technique="bounded-exhaustive enumeration of classes x strategies x derived rule forms (W and G families); oracle: plain enumeration bound to the sub-term providers",
+        text="Every non-empty class of the W family x every strategy (dropped / merged / renamed statistics) and every class of every grammar of the G families x every derived form (plain, every reverse, equivalence, reverse-of-equivalence, equivalence-of-reverse, equivalence paths of length <= 3): computed terms == plain enumeration for all sizes <= N and parameter tuples.",
+        note="trusted: domain brute force; every rule passes the domain gate first"),
+    "C10": dict(category="exploration", design="4/C10",
+        technique="same enumeration as C09 with logging sub-term providers, levels computed one at a time",
+        text="For every rule form of C09 and every level n <= N: each request to child i is for a size <= n - shifts()[i], requests for the rule's own terms are < n, and the forest key carries shifts().",
+        note="only the first computation of each level is observable (terms are cached)"),
+    "C11": dict(category="model_checking", design="4/C11",
+        technique="explicit-state enumeration of all insertion orders of small rule universes through the real TableMethod + ForestRuleExtractor; observed extractors of real forest searches; oracle: independent least fixed point",
+        text="Every duplicate-free sequence of <= 3 (4) keys from an alphabet of 3-label keys in all bucket assignments with a pumping root, and every forest run of the search lattice: extracted keys are inserted keys, one rule per parent, closed, productive for the root by the independent LFP, minimal (no single rule removable), no REVERSE key when productive without; every extracted key of a real run is turned back into a rule with that key.",
+        note="trusted: lfp_terms oracle"),
+    "C12": dict(category="exploration", design="4/C12",
+        technique="bounded-exhaustive enumeration of ordered pairs of specifications; oracle: plain enumeration of both root classes, object by object",
+        text="All ordered pairs of the distinct specifications of a bounded family (W under three rule databases with/without a statistic, all pattern sets of <= 2 words of length 3, G grammars; every 7th pair after a JSON round trip): a returned bijection maps the objects of the first root one-to-one onto those of the second for all sizes <= N with a two-sided inverse; check is symmetric and reflexive.",
+        note="each ordered pair judged independently"),
+    "C13": dict(category="exploration", design="4/C13",
+        technique="bounded-exhaustive enumeration of ordered pairs of searchers x both finder variants; oracles of C01/C02/C12 on the returned pair",
+        text="All ordered pairs of the quick start classes x packs {base, symmetry, inferral,...} x {ParallelSpecFinder, EqPathParallelSpecFinder}: find() returns None or two specifications, each valid for its own start class, isomorphic, with a valid bijection; no exception.",
+        note="RuleDB only (the finder supports nothing else)"),
+    "C14": dict(category="model_checking", design="4/C14",
+        technique="lock-step runs of the two rule databases on the same controlled schedule with an observer after every insertion",
+        text="Every configuration is run with RuleDB and RuleDBForgetStrategy under the same schedule; after every insertion: add stream, verified labels, has_specification, stored keys, contains() for stored and all small non-stored keys (bool, true exactly on stored keys), and the strategy handed back for every stored key of a non-empty class re-applied.",
+        note="queries with side effects (has_specification) are made identically on both; a second mode omits them"),
+    "C15": dict(category="model_checking", design="4/C15",
+        technique="explicit-state breadth-first search over operation histories of the real ClassDB (plain and compressed), closed state space; oracle: list-backed reference + invariants",
+        text="All histories of get_label/get_class/in/is_empty/set_empty over a pool with equal-but-distinct and empty classes and labels -2..6, deduplicated on the backing lists until no new state appears; every transition compared with the reference, invariants (dense labels, bijection, cached emptiness) in every state.",
+        note="set_empty is given the true emptiness (as the searcher does)"),
+    "C16": dict(category="model_checking", design="4/C16",
+        technique="explicit-state breadth-first search over histories of the real DefaultQueue with an obligation monitor (product state), do_level interleaved as a generator",
+        text="All histories of add/stop/verified/not-inferrable/next/do_level-start/do_level-next over 2-3 labels for 7 (36) packs to depth 8 (10): never work for a stopped label, never the same (label, strategy) twice, complete ordered schedule for every live label at exhaustion, exhaustion is stable, do_level semantics.",
+        note="trusted: Monitor (self-tested)"),
+    "C17": dict(category="fault_enumeration", design="4/C17",
+        technique="crash-point enumeration: interruption of the real auto_search by the virtual clock at every work-packet count, pickle round trip, differential continuation",
+        text="For every configuration and every crash point k: interrupt, pickle, restore; restored == original, equal canonical universes, identical continuation (packet streams, universes, specification) to the end and through further interruption points; interrupted-then-resumed equals uninterrupted with the same check point; final specification passes C01/C02. Hosts the reduction-conformance run of the clock (one leap at every time() call).",
+        note="horizon of 30 (60) work packets per configuration"),
+    "C18": dict(category="exploration", design="4/C18",
+        technique="bounded-exhaustive enumeration of serialisable artefacts of the corpus",
+        text="Every corpus specification, pack, strategy instance (created 6-8 ways), rule form of C09 and bijection of C12 is dumped to JSON text and reloaded: equality both ways and equal behaviour (counts, objects, equations, maps).",
+        note=""),
+    "C19": dict(category="exploration", design="4/C19",
+        technique="bounded-exhaustive enumeration of specifications with verified classes under every rule database; expand_verified under the virtual clock",
+        text="For every start class x VerifyByPrefix(S) (all S of <= 2 prefixes of length <= 2) x variants x rule databases: expand_verified() result passes C01/C02, has no expandable verified class left, shares no rule of the specification with the original when something was expanded; the original is unchanged and still counts correctly.",
+        note="the reverse-retry branch of expand_verified is not reached by the W-domain packs (stated in DESIGN limits)"),
+    "C20": dict(category="exploration", design="4/C20",
+        technique="bounded-exhaustive enumeration of equations of corpus specifications; oracle: true series by plain enumeration substituted positionally, coefficient comparison up to degree M; Taylor expansion of closed forms to order 12",
+        text="Every equation of every corpus specification (W and G, 0-2 statistics, reverse rules, equivalence paths) is checked coefficient by coefficient up to degree M after substituting the true series; closed forms are expanded to order 12 (the library checks 6).",
+        note="sympy is trusted for polynomial arithmetic; equations or closed forms exceeding the time budget are counted and skipped"),
 }
 
 REASON_PENDING = "check not built yet (work in progress; see DESIGN.md section 4 for the plan)"
